@@ -58,3 +58,51 @@ STRING_OPTIONS = (3, 8, 11, 15, 20, 35, 39)
 
 def is_string_option(number):
     return number in STRING_OPTIONS
+
+
+def enc1(prev, number, value):
+    """One option on the wire (RFC 7252 section 3.1): header byte with delta and length nibbles,
+    extended delta, extended length, value.  prev is the number of the preceding option (0 at the start)."""
+    d = ext(number - prev)
+    l = ext(len(value))
+    return bytes([d[0] * 16 + l[0]]) + d[1] + l[1] + value
+
+
+def header(mtype, code, mid, token):
+    """Fixed 4-byte header plus token, RFC 7252 section 3 (Ver=1, T, TKL, Code, Message ID big-endian)."""
+    return bytes([64 + mtype * 16 + len(token), code, mid // 256, mid % 256]) + token
+
+
+def datagram(mtype, code, mid, token, opts, payload):
+    """opts: the already serialised option sequence"""
+    if len(payload) > 0:
+        return header(mtype, code, mid, token) + opts + b"\xff" + payload
+    return header(mtype, code, mid, token) + opts
+
+
+def parse_options(data):
+    """Native-only (has a loop; never executed symbolically): the iteration of parse_one from option number 0.
+    Returns (list of (number, raw value), payload) or None if malformed."""
+    opts = []
+    prev = 0
+    while len(data) > 0:
+        if data[0] == 0xFF:
+            return (opts, data[1:])
+        p = parse_one(prev, data)
+        if p is None:
+            return None
+        opts.append((p[0], p[1]))
+        prev = p[0]
+        data = p[2]
+    return (opts, b"")
+
+
+def parse_datagram(b):
+    """Native-only independent reading of RFC 7252 section 3: (type, code, mid, token, options, payload) or None."""
+    if len(b) < 4 or b[0] // 64 != 1:
+        return None
+    tkl = b[0] % 16
+    o = parse_options(b[4 + tkl:])
+    if o is None:
+        return None
+    return ((b[0] // 16) % 4, b[1], b[2] * 256 + b[3], b[4:4 + tkl], o[0], o[1])
